@@ -19,15 +19,15 @@ COMPONENTS = {
 P = {
  "C01": (True, "exploration", "deterministic simulation: seeded key scripts x seeded read chunking/type-ahead x injected EOF/EIO/EINTR/report faults; per-step deadlock/livelock/panic oracle",
          "Seeded exploration of complete Readline sessions inside a synctest bubble: every terminal read, its size and its faults are scheduler decisions, so 'parked in a terminal read' versus 'blocked internally' versus 'polling a dead terminal' is decided exactly at every step. Sampling, not proof.",
-         "trusted: simulator scheduler and quiescence detection; step budget (1500 steps without input progress = livelock); CPU watchdog for loops that never reach a simulator point",
+         "trusted: simulator scheduler and quiescence detection; livelock = 1500 scheduler steps without input progress, where progress is the user's bytes being read (the main loop reading the answers to its own cursor queries is not); more than 2500 reads after end of input without returning = polling a dead terminal; CPU watchdog for loops that never reach a simulator point; known findings are named by the panicking frame / blocked tasks",
          "scenario = (swarm environment, key script by command name + raw bytes, schedule class S1/S2/S3, fault plan); distinct = distinct hash of the sequence of abstract editor states (main keymap, local keymap, buffer shape, cursor class, last command, read kind) at input waits; non-trivial = more than 6 scheduler steps", [], "§6 C01"),
  "C02": (True, "exploration", "deterministic simulation: typed text delivered under slow-typist, cut-at-waits (incl. mid-UTF-8, paste) and type-ahead schedules; identity oracle",
          "Each generated string is typed through the simulated tty under three schedule classes and the returned line is compared for equality, with the buffer checked against the typed prefix at every input wait.",
-         "trusted: generator only types self-inserting printable runes; type-ahead (S2) failures are attributed to C05, not reported here",
+         "trusted: generator only types self-inserting printable runes; type-ahead (S2) failures of plain ASCII text are violations here; for non-ASCII text they are attributed to C05 (a multi-byte character cut by the end of a read is a listed C05 finding)",
          "scenario = (string over ASCII/Latin-1/BMP/astral classes, mode, meta variables, chunking seed); distinct = distinct abstract-state sequence hash; non-trivial = non-empty text", [], "§6 C02"),
  "C05": (True, "exploration", "deterministic simulation: one byte script replayed under a canonical and N seeded delivery schedules (cuts, report/type-ahead fusion); outcome equality",
          "Differential over schedules: the same bytes are delivered by a slow typist and by N seeded schedules that cut reads anywhere and fuse typed bytes with cursor-position reports; (line, err) or the final editor state must be identical.",
-         "trusted: vi-mode admissibility rule (no cut and no fusion directly after a typed ESC), reports delivered atomically",
+         "trusted: vi-mode admissibility rule (no cut and no fusion directly after a typed ESC), reports delivered atomically; two batches: restricted core scripts (the pinned tree passes them: violations named in full) and the full alphabet (known findings named by schedule class)",
          "scenario = (key script, N schedule seeds); distinct = distinct abstract-state/interleaving hash; non-trivial = at least one read differed from the canonical delivery (partial read, fused report, typed bytes reaching a cursor-query read)", [], "§6 C05"),
  "C06": (True, "exploration", "deterministic simulation of edit sessions; invariants checked at every input wait, movement purity resolved from the live keymaps",
          "Cursor/selection/mark range invariants are checked at every input wait of seeded edit sessions; movement/copy commands are identified from the keymaps observed at the wait before the key and must leave the buffer text unchanged; the returned line must equal the buffer at acceptance.",
@@ -50,7 +50,7 @@ def _p(level, tech, text, note, rule, ref):
 P.update({
  "C03": _p("exploration", "deterministic simulation: generated bind tables + key strings delivered one byte per read / at once / cut at seeded points; nondeterministic executable reference matcher over the live table",
     "Probe commands bound through the public API record every dispatch; an executable reference matcher written from the statement (longest match, remembered shorter match, macros; both 'discard' and 're-dispatch' where the statement is silent) must accept the observed invocation log.",
-    "trusted: the reference matcher (props/c03.go, ~120 lines); tables live under a lead byte the default tables do not use; sessions whose keymap changed are not judged",
+    "trusted: the reference matcher (props/c03.go, ~120 lines); tables live under a lead byte the default tables do not use; sessions whose keymap changed are not judged; batches: prefix-free tables typed in main keymaps and inside the vi visual keymap (named in full), overlapping tables without macros in emacs (named in full), the rest named by keymap (known findings)",
     "scenario = (keymap, bind table with forced prefix overlaps and macros, input string, delivery schedule); distinct = distinct abstract-state sequence hash; non-trivial = the reference produced a judgement", "§6 C03"),
  "C04": _p("exploration", "deterministic simulation: VT100 cell-grid emulator fed with the library's output and answering its cursor queries; reference layout anchored at the cell the terminal itself reported",
     "At every input wait the emulator grid is compared with a reference layout of prompt+buffer (wrap at the width, wide glyphs never straddling the margin, continuation rows, no remnants) and the cursor cell; geometry, prompts, start row (scrolling) and previous frames are swarm parameters.",
@@ -102,7 +102,7 @@ P.update({
     "run = (rune sequence | configuration + dump command | recorded macro); distinct = distinct payload hash; every run is non-trivial; indexes 0..255 enumerate the single runes", "§6 C19"),
  "C20": _p("exploration", "deterministic simulation with injected SIGWINCH / resize / Printf / PrintTransientf disturbances pinned to the n-th occurrence of named scheduling points, one-runner scheduler choosing every interleaving from the seed; reference = undisturbed run",
     "The resize watcher and application Printf callers are real goroutines released one at a time at guarded yield points; each disturbance is injected when a named task reaches a named point (main loop top, during refresh, during the cursor query, at the report hand-off, while waiting, ...). Judged: no panic, no deadlock or stuck task, same (line, err) as the undisturbed run, consistent screen at the next clean input wait. The quick tier includes a systematic sweep of single disturbances over (site x kind x occurrence).",
-    "trusted: yield points are where interleaving matters (DESIGN.md §3); between two yield points a task runs alone",
+    "trusted: yield points are where interleaving matters (DESIGN.md §3); between two yield points a task runs alone; one event (resize or Printf, also with a key typed while its report is in flight) while Readline waits for input is named in full, everything beyond is named by the window in which it lands (known findings)",
     "scenario = (key script, disturbance plan, enabled yield-site subset, schedule seed); distinct = distinct interleaving/abstract-state hash; non-trivial = at least one disturbance fired", "§6 C20"),
 })
 
